@@ -101,6 +101,11 @@ NumFieldOK(s) == LET t == TrimR(s) IN
                  /\ (\A i \in 1..Len(t) : Digit(t[i]) \/ Letter(t[i]) \/ t[i] = F)
                  /\ NoDoubleFill(t)
 
+\* date of birth: YYMMDD where an unknown year, month or day is written as two fillers (Doc 9303-3 4.7: "if all or
+\* part of the date of birth is unknown, the relevant character positions shall be completed with filler characters")
+DateOK(s) == /\ Len(s) = 6
+             /\ \A k \in {1, 3, 5} : (Digit(s[k]) /\ Digit(s[k + 1])) \/ (s[k] = F /\ s[k + 1] = F)
+
 WellFormed(m) ==
   /\ Layout(m) # "none"
   /\ \A i \in 1..Len(m) : Alpha(m[i])
@@ -112,7 +117,7 @@ WellFormed(m) ==
         THEN Ext(r) /\ (\A i \in 1..Len(FullNum(r)) : Digit(FullNum(r)[i]) \/ Letter(FullNum(r)[i]))
         ELSE NumFieldOK(r.num)
      /\ CdOK(FullNum(r), FullNumCd(r))
-     /\ AllDigits(r.dob) /\ CdOK(r.dob, r.dobcd)
+     /\ DateOK(r.dob) /\ CdOK(r.dob, r.dobcd)
      /\ AllDigits(r.exp) /\ CdOK(r.exp, r.expcd)
      /\ r.sex[1] \in {15, 22, F}                     \* F, M, <
      /\ (Layout(m) = "TD3" => (CdOK(r.opt, r.optcd) \/ (r.optcd = F /\ AllFill(r.opt))))
@@ -133,8 +138,10 @@ Fields(m) == LET r == Raw(m) IN
 \* from the three key fields as a person would type them (decoded document number, dates)
 Enc(s) == [i \in 1..Len(s) |-> IF s[i] = SP THEN F ELSE s[i]]
 Pad9(s) == IF Len(s) >= 9 THEN s ELSE s \o [i \in 1..(9 - Len(s)) |-> F]
-SeedFromFields(num, dob, exp) == LET n == Pad9(Enc(num)) IN
-                                 n \o << CD(n) >> \o dob \o << CD(dob) >> \o exp \o << CD(exp) >>
+\* (a decoded date with unknown parts has blanks where the zone has fillers, in front as well: they are positions)
+PadN(s, n) == IF Len(s) >= n THEN s ELSE s \o [i \in 1..(n - Len(s)) |-> F]
+SeedFromFields(num, dob, exp) == LET n == Pad9(Enc(num)) d == PadN(Enc(dob), 6) e == PadN(Enc(exp), 6) IN
+                                 n \o << CD(n) >> \o d \o << CD(d) >> \o e \o << CD(e) >>
 \* directly from the zone
 SeedFromMrz(m) == LET r == Raw(m) IN
                   FullNum(r) \o << FullNumCd(r) >> \o r.dob \o << r.dobcd >> \o r.exp \o << r.expcd >>
